@@ -11,7 +11,7 @@ use std::time::Duration;
 use vcore::{prop_search, Outcome, Run, Search};
 use wire::*;
 
-const RULE: &str = "end-to-end: the raw peer interleaves live traffic of the session (WT uni / bidi streams with tagged payloads, datagrams) with streams and datagrams naming a different, valid but unused session id (4, 8, 2^k*4 up to 2^62-4; for the client role also ids that would belong to later requests), in generated order, on both roles. Oracle: no foreign stream or datagram is ever returned by accept_uni / accept_bi / receive_datagram; every foreign stream is refused with the WebTransport buffered-stream-rejected code 0x3994bd84 (STOP_SENDING on the peer's send half) once the application asks for streams; all live streams are delivered with their bytes, a live datagram still arrives, and the session stays up. Non-trivial: >= 1 foreign element between two live ones; distinct = distinct case";
+const RULE: &str = "end-to-end: the raw peer interleaves live traffic of the session (WT uni / bidi streams with tagged payloads, datagrams) with streams and datagrams naming a different, valid but unused session id (4, 8, 2^k*4 up to 2^62-4; for the client role also ids that would belong to later requests), in generated order, on both roles; the application issues its accept / receive calls either awaited to completion or polled 1..3 times, dropped and re-issued (the calls are documented as cancel safe). Oracle: no foreign stream or datagram is ever returned by accept_uni / accept_bi / receive_datagram; every foreign stream is refused with the WebTransport buffered-stream-rejected code 0x3994bd84 (STOP_SENDING on the peer's send half) once the application asks for streams; all live streams are delivered with their bytes, a live datagram still arrives, and the session stays up. Non-trivial: >= 1 foreign element between two live ones; distinct = distinct case";
 
 #[derive(Clone, Debug, Serialize, Deserialize)]
 pub enum Item {
@@ -28,6 +28,31 @@ pub struct Case {
     pub flavor: u8,
     pub wt_is_server: bool,
     pub items: Vec<Item>,
+    /// how the application issues accept_uni / accept_bi / receive_datagram (documented as cancel
+    /// safe): empty = awaited to completion; otherwise call i is polled `plan[i % len] % 4` times and
+    /// dropped if still pending (0 = awaited to completion), then re-issued 1 ms later — the shape of
+    /// a `select!` loop whose other branch is ready
+    #[serde(default)]
+    pub accept_plan: Vec<u8>,
+}
+
+/// One accept call under the plan: Some(result) or None when the call was cancelled.
+async fn planned<T, F: std::future::Future<Output = T>>(plan: &[u8], i: &mut usize, fut: F) -> Option<T> {
+    if plan.is_empty() {
+        return Some(fut.await);
+    }
+    let polls = plan[*i % plan.len()] % 4;
+    *i += 1;
+    if polls == 0 {
+        return Some(fut.await);
+    }
+    match cancel_after(fut, polls as usize).await {
+        Some(v) => Some(v),
+        None => {
+            tokio::time::sleep(Duration::from_millis(1)).await;
+            None
+        }
+    }
 }
 
 fn foreign_id() -> impl Strategy<Value = u64> {
@@ -48,7 +73,8 @@ pub fn case_strategy() -> impl Strategy<Value = Case> {
         2 => foreign_id().prop_map(Item::ForeignBi),
         1 => foreign_id().prop_map(Item::ForeignDatagram),
     ];
-    (0u8..3, any::<bool>(), proptest::collection::vec(item, 2..12)).prop_map(|(flavor, wt_is_server, items)| Case { flavor, wt_is_server, items })
+    (0u8..3, any::<bool>(), proptest::collection::vec(item, 2..12), prop_oneof![1 => Just(Vec::new()), 1 => Just(vec![1u8]), 1 => proptest::collection::vec(0u8..4, 1..5)])
+        .prop_map(|(flavor, wt_is_server, items, accept_plan)| Case { flavor, wt_is_server, items, accept_plan })
 }
 
 #[derive(Default)]
@@ -77,9 +103,12 @@ async fn exec_async(case: Arc<Case>) -> CaseResult {
     {
         let c = conn.clone();
         let g = got.clone();
+        let plan = case.accept_plan.clone();
         app.push(tokio::spawn(async move {
+            let mut i = 0usize;
             loop {
-                match c.accept_uni().await {
+                let Some(res) = planned(&plan, &mut i, c.accept_uni()).await else { continue };
+                match res {
                     Ok(mut r) => {
                         let g = g.clone();
                         tokio::spawn(async move {
@@ -100,9 +129,12 @@ async fn exec_async(case: Arc<Case>) -> CaseResult {
         }));
         let c = conn.clone();
         let g = got.clone();
+        let plan = case.accept_plan.clone();
         app.push(tokio::spawn(async move {
+            let mut i = 1usize;
             loop {
-                match c.accept_bi().await {
+                let Some(res) = planned(&plan, &mut i, c.accept_bi()).await else { continue };
+                match res {
                     Ok((_s, mut r)) => {
                         let g = g.clone();
                         tokio::spawn(async move {
@@ -123,9 +155,12 @@ async fn exec_async(case: Arc<Case>) -> CaseResult {
         }));
         let c = conn.clone();
         let g = got.clone();
+        let plan = case.accept_plan.clone();
         app.push(tokio::spawn(async move {
+            let mut i = 2usize;
             loop {
-                match c.receive_datagram().await {
+                let Some(res) = planned(&plan, &mut i, c.receive_datagram()).await else { continue };
+                match res {
                     Ok(d) => g.lock().unwrap().dgram.push(d.payload().to_vec()),
                     Err(e) => {
                         g.lock().unwrap().errors.push(format!("receive_datagram: {}", conn_err(&e)));
